@@ -180,4 +180,15 @@ def extra_checks(tier, seed):
     import c05
     name, ok, detail, rep = c05.hsm_queue_stream(tier, seed + 1000)
     out.append(('events_through_the_queue', ok, detail, rep))
+    # unqueued machines whose callbacks trigger events: processed inside the callback, on the configuration of that moment
+    n3 = 300 if tier == 'quick' else 8000
+    cases, bad, nested = hsm.reent_stream('C02r', seed, n3, p_parallel=0.3)
+    detail = dict(cases=len(cases), disagreements=len(bad), nested_triggers_processed=nested)
+    if bad:
+        c, m, i = bad[0]
+        out.append(('unqueued_callbacks_that_trigger', False, detail,
+                    dict(kind='counterexample', stream='unqueued hierarchical machine, callbacks that trigger events (HReent.v)',
+                         case=c, model_obs=m, impl_obs=i)))
+    else:
+        out.append(('unqueued_callbacks_that_trigger', True, detail, {}))
     return out
